@@ -308,3 +308,18 @@ Section HeapC02.
     intros. apply (PC.caches_invisible_c02 query ext fsigs fcall pcall query_valid); eapply reachable_Inv0; eassumption.
   Qed.
 End HeapC02.
+
+(* ---- ... and with the JavaScript layer -------------------------------------------------------------- *)
+From OV Require Model.Js Proofs.Js Proofs.PipelineJs.
+Module PJS := OV.Proofs.PipelineJs.
+
+(* a process whose node heap is in ANY reachable state and whose JavaScript caches are empty
+   (on or off, any capacities) satisfies the invariant of caches_invisible_js *)
+Theorem reachable_InvJ r compile caching s F acq picks memo nocache pc nc :
+  reachable caching s F acq ->
+  PJS.InvJ r compile (P.mkHid (abs_alloc caching s picks) memo (Model.Js.st_init nocache pc nc)).
+Proof.
+  intros Hr. exists (map Z.to_N acq). split.
+  - exact (reachable_AInv caching s F acq picks Hr).
+  - apply PJS.CInvJ_empty.
+Qed.
